@@ -64,12 +64,14 @@ func (l *glog) add(t0 time.Time, e Event) {
 }
 
 type worker struct {
-	g    int
-	prog []string
-	cmd  chan struct{}
-	log  glog
-	goid int64
-	done chan struct{}
+	g      int
+	prog   []string
+	cmd    chan struct{}
+	log    glog
+	goid   int64
+	done   chan struct{}
+	ctx    context.Context
+	cancel context.CancelFunc
 	// progress (written by the worker, read by the scheduler only after done or for the stuck report)
 	pmu     sync.Mutex
 	started int
@@ -166,9 +168,9 @@ func (r *run) doCall(w *worker, k int, call string) {
 		w.log.add(t0, Event{"ev": "ce", "g": w.g, "k": k, "call": call, "cls": classify(err)})
 	case "HandshakeCtx":
 		w.log.add(t0, Event{"ev": "cs", "g": w.g, "k": k, "call": call})
-		ctx, cancel := context.WithCancel(context.Background())
-		err := r.cut.HandshakeContext(ctx)
-		cancel()
+		// the context was made by the scheduler before the run (no worker -> scheduler edge); it is
+		// cancelled by an "x" event (virtual time) or at the end of the schedule
+		err := r.cut.HandshakeContext(w.ctx)
 		w.log.add(t0, Event{"ev": "ce", "g": w.g, "k": k, "call": call, "cls": classify(err)})
 	case "ConnState":
 		w.log.add(t0, Event{"ev": "cs", "g": w.g, "k": k, "call": call})
@@ -512,6 +514,7 @@ func runSchedule(s Schedule, watchdog time.Duration) (events []Event, stuck bool
 	var ready sync.WaitGroup
 	for i, p := range s.Progs {
 		w := &worker{g: i + 1, prog: p, cmd: make(chan struct{}), done: make(chan struct{})}
+		w.ctx, w.cancel = context.WithCancel(context.Background())
 		r.workers = append(r.workers, w)
 		ready.Add(1)
 		go r.workerLoop(w, &ready)
@@ -556,6 +559,9 @@ func runSchedule(s Schedule, watchdog time.Duration) (events []Event, stuck bool
 			ok = true
 		case "x":
 			r.gate.expire()
+			for _, w := range r.workers {
+				w.cancel()
+			}
 			r.schedLog.add(r.t0, Event{"ev": "expire"})
 			ok = true
 		default:
@@ -580,6 +586,9 @@ func runSchedule(s Schedule, watchdog time.Duration) (events []Event, stuck bool
 	// every gate opens; the remaining calls of the programs run freely.
 	r.settle()
 	r.gate.expire()
+	for _, w := range r.workers {
+		w.cancel()
+	}
 	r.gate.netdown()
 	r.schedLog.add(r.t0, Event{"ev": "down"})
 	r.gate.openAll()
